@@ -397,9 +397,7 @@ def runModel (lines : List String) : List String :=
 def quirkList : List (String × Quirks) :=
   [ ("num-opeq-real", { Quirks.real with numOpEqReal := false }),
     ("addeq-num-str", { Quirks.real with addEqNumStr := false }),
-    ("buf-store-zero", { Quirks.real with bufStoreZero := false }),
-    ("optimistic-types", { Quirks.real with optimisticTypes := false }),
-    ("rev-range-wrap", { Quirks.real with revRangeWrap := false }) ]
+    ("optimistic-types", { Quirks.real with optimisticTypes := false }) ]
 
 def clip (s : String) : String := if s.length > 160 then (s.take 160).toString ++ "..." else s
 
